@@ -1824,18 +1824,33 @@ BTree_rangeSearch(BTree *self, PyObject *args, PyObject *kw, char type)
         int cmp;
 
         /* Have to check the hard way:  see how the endpoints compare. */
+        /* The buckets are not pinned while the keys are compared, and the
+        * comparison can run arbitrary code (it may even deactivate the
+        * buckets): own the keys for that long.
+        */
         UNLESS (PER_USE(lowbucket))
             goto err_and_decref_buckets;
         COPY_KEY(first, lowbucket->keys[lowoffset]);
+        INCREF_KEY(first);
         PER_UNUSE(lowbucket);
 
         UNLESS (PER_USE(highbucket))
+        {
+            DECREF_KEY(first);
             goto err_and_decref_buckets;
+        }
         COPY_KEY(last, highbucket->keys[highoffset]);
+        INCREF_KEY(last);
         PER_UNUSE(highbucket);
 
         TEST_KEY_SET_OR(cmp, first, last)
+        {
+            DECREF_KEY(first);
+            DECREF_KEY(last);
             goto err_and_decref_buckets;
+        }
+        DECREF_KEY(first);
+        DECREF_KEY(last);
         if (cmp > 0)
                 goto empty_and_decref_buckets;
     }
